@@ -31,6 +31,7 @@ var netErr = errors.New("connection dropped")
 
 // wireMode: the next scenario reaches the mock coordinator through real *Conn objects (byte-level path)
 var wireMode bool
+var seenBody = map[string]bool{}
 
 // ---------------------------------------------------------------- scenario state
 
@@ -611,6 +612,12 @@ func (s *scenario) emit(name string) {
 		tr = "nextCall"
 	}
 	fmt.Fprintf(out, "trace %d %s\t%s\n", s.nWatch, tr, st)
+	for _, l := range s.mock.TakeBodies() {
+		if strings.HasPrefix(l, "wirereq ") && !seenBody[l] {
+			seenBody[l] = true
+			fmt.Fprintln(out, l)
+		}
+	}
 	_ = name
 }
 
